@@ -6,14 +6,22 @@ from . import gen, tlaval
 POLE = 4194304
 
 
-def run_model(ctx, mode, what):
+def phases(ctx):
+    """anchor shards: quick = one quarter of the anchors (rotated by the seed); thorough = all four quarters, one after the
+    other so that dump, vectors and events of only one shard are in memory at a time"""
+    return [ctx.seed % 4] if ctx.quick else [0, 1, 2, 3]
+
+
+def run_model(ctx, mode, what, phase=None):
     q = ctx.quick
-    seeds = sorted({ctx.rng.randrange(1 << 24) for _ in range(3 if q else 6)})
-    seedlats = sorted({ctx.rng.randrange(2 * POLE + 1) for _ in range(40 if q else 600)})
+    if phase is None:
+        phase = ctx.seed % 4
+    seeds = sorted({ctx.rng.randrange(1 << 24) for _ in range(3 if q else 5)})
+    seedlats = sorted({ctx.rng.randrange(2 * POLE + 1) for _ in range(40 if q else 150)})
     cfg = ("INIT Init\nNEXT Next\nINVARIANT AirGlobalOK\nINVARIANT SurfGlobalOK\nINVARIANT LocalOK\n"
            "CHECK_DEADLOCK FALSE\nCONSTANTS\n Mode = \"%s\"\n DLatAbs = {%s}\n Stride = %d\n Phase = %d\n"
            " SeedLons = {%s}\n SeedLats = {%s}\n" % (
-               mode, "0,1,2,4" if q else "0,1,2,3,4,5,6,7", 4 if q else 1, (ctx.seed % 4) if q else 0,
+               mode, "0,1,2,4" if q else "0,1,2,3,4,5,6,7", 4, phase,
                ",".join(map(str, seeds)), ",".join(map(str, seedlats))))
     dump = os.path.join(ctx.tmp, "cpr_%s.dump" % mode)
     ctx.model_check("MC_CPR", cfg_text=cfg, dump=dump, what=what, timeout=3000)
